@@ -1017,6 +1017,11 @@ class Norm:
             return a
         if c == C(False):
             return b
+        # `x if x else y` is `x or y`; `y if not x else x` likewise; `x if not x else y` is `x and y`
+        if c == a:
+            return mk_or([a, b])
+        if c == mk_not(b) and b[0] != "c":
+            return mk_or([b, a])
         # boolean-valued conditionals are conditions
         if a == C(True) and b == C(False):
             return c
